@@ -10,7 +10,7 @@ import (
 )
 
 // renameShadows makes every local variable of fd carry a name of its own: a declaration that shadows (or merely
-// reuses the name of) an earlier local/parameter of the same function is renamed, with all its uses, to name''N.
+// reuses the name of) an earlier local/parameter of the same function is renamed, with all its uses, to name”N.
 // The translation passes variables BY NAME (join points, loop functions, the code after a block is generated
 // inside the block's lets), so shadowing would be captured; with unique names Go's scoping and the lexical scoping
 // of the generated lets coincide.  Uses go/parser's object resolution (areas with the shadow flag parse with it).
@@ -215,19 +215,21 @@ func init() {
 		pairmaps: map[string][2]string{"ptrpairs": {"path", "tyname"}},
 		maps:     map[string]string{"ptrmap": "MapCheckPrims.pm_lookup"},
 		mapvals: map[string]string{
-			"ptrmap":                             "tyname",
-			"*Generator.readSrcMap":              "string",
-			"*Generator.writeSrcMap":             "string",
-			"*Generator.readDestMap()":           "string",
-			"*Generator.srcPathsMap":             "[]path",
-			"*Generator.destPathsMap":            "[]path",
-			"*Generator.data.SrcPtrTypeMap":      "tyname",
-			"*Generator.data.DestPtrTypeMap":     "tyname",
+			"ptrmap":                         "tyname",
+			"*Generator.readSrcMap":          "string",
+			"*Generator.writeSrcMap":         "string",
+			"*Generator.readDestMap()":       "string",
+			"*Generator.writeDestMap()":      "string",
+			"*Generator.srcPathsMap":         "[]path",
+			"*Generator.destPathsMap":        "[]path",
+			"*Generator.data.SrcPtrTypeMap":  "tyname",
+			"*Generator.data.DestPtrTypeMap": "tyname",
 		},
 		wlooks: map[string]string{
 			"*Generator.readSrcMap":          "MapCheckPrims.rmap_lookup",
 			"*Generator.writeSrcMap":         "MapCheckPrims.wmap_lookup",
 			"*Generator.readDestMap()":       "MapCheckPrims.wmap_lookup",
+			"*Generator.writeDestMap()":      "MapCheckPrims.rmap_lookup",
 			"*Generator.srcPathsMap":         "MapCheckPrims.srcpaths_lookup",
 			"*Generator.destPathsMap":        "MapCheckPrims.dstpaths_lookup",
 			"*Generator.data.SrcPtrTypeMap":  "MapCheckPrims.srcout_lookup",
@@ -262,6 +264,117 @@ func init() {
 			"strings.Join":            {coq: "MapCheckPrims.comps_path", args: []int{0}, results: []string{"path"}},
 			"*Generator.writeDestMap": {coq: "MapCheckPrims.live_values", results: []string{"[]string"}, reads: true},
 		},
+		nilPan: "PNilDeref",
+	}
+}
+
+func init() {
+	cl := func(get, set, typ string) recField {
+		r := recField{"MapCtorPrims." + get, "", typ}
+		if set != "" {
+			r.set = "MapCtorPrims." + set
+		}
+		return r
+	}
+	areas["mapctor"] = &area{
+		name:   "mapctor",
+		module: "MapCtorGen",
+		header: []string{
+			"From Coq Require Import ZArith List Bool String.",
+			"From Shoot Require Import Base.Str Model.Transfer Model.MapVal Model.Mapper Bridge.GoPrims Bridge.MapCtorPrims.",
+		},
+		section: []string{
+			"Section Gen.",
+			"(* go/types oracles, as in Model/MapVal.v *)",
+			"Variable TypeEquals : ty -> ty -> bool.        (* shoot.TypeEquals *)",
+			"Variable ConvertibleTo : ty -> ty -> bool.     (* types.ConvertibleTo *)",
+			"Variable isString : ty -> bool.",
+			"Variable isFixedWidthInt : ty -> bool.",
+			"Variable zeroValue_o : ty -> string.           (* ctor.go zeroValue: a type switch over go/types; the empty text = unsupported *)",
+			"",
+		},
+		footer: []string{"End Gen."},
+		world:  "MapCtorPrims.cworld",
+		funcs: []fnSpec{
+			{file: "internal/mapper/types.go", name: "Field.MatchingName"},
+			{file: "internal/mapper/match.go", name: "mayMisConv"},
+			{file: "internal/mapper/match.go", name: "matchType"},
+			{file: "internal/mapper/match.go", name: "canNameMatch"},
+			{file: "internal/mapper/ctor.go", name: "makeCtorMatch", ptypes: map[string]string{"writeSet": "setref"}},
+			{file: "internal/mapper/ctor.go", name: "Generator.makeCtorMatch", as: "makeCtorMatchBoth"},
+		},
+		types: map[string]string{
+			"bool": "bool", "string": "string", "int": "Z",
+			"Field": "Mapper.field", "*Field": "MapCtorPrims.cloc", "[]*Field": "(list MapCtorPrims.cloc)",
+			"*Field|nil": "(option MapCtorPrims.cloc)", "tyname": "(option ty)",
+			"types.Type": "ty", "map[string]string": "Mapper.tagmap",
+			"*Generator": "-", "*Flags": "MapCtorPrims.cflags", "setref": "MapCtorPrims.setref",
+			"shoot.Func": "Mapper.mfunc", "[]shoot.Func": "(list Mapper.mfunc)",
+		},
+		ptrs:   map[string]bool{"*Field|nil": true},
+		optOf:  map[string]string{"*Field|nil": "*Field"},
+		zeros:  map[string]string{"map[string]string": "MapCtorPrims.nil_tags"},
+		shadow: true,
+		fields: map[string]map[string]field{
+			"Field":      {"Name": {"Mapper.f_name", "string"}, "backingName": {"Mapper.f_backing", "string"}},
+			"shoot.Func": {"Name": {"Mapper.mf_name", "string"}, "Param": {"Mapper.mf_param", "types.Type"}, "Result": {"Mapper.mf_result", "types.Type"}},
+		},
+		records: map[string]map[string]recField{
+			"*Flags": {
+				"ignoreCase": {"MapCtorPrims.cf_ic", "", "bool"},
+				"alias":      {"MapCtorPrims.cf_alias", "", "string"},
+			},
+		},
+		wrecv: map[string]map[string]wfield{
+			"*Generator": {
+				"exportedFields":     {get: "(MapCtorPrims.src_locs w)", typ: "[]*Field"},
+				"destExportedFields": {get: "(MapCtorPrims.dst_locs w)", typ: "[]*Field"},
+				"destCtorParams":     {get: "(MapCtorPrims.dctor_locs w)", typ: "[]*Field"},
+				"srcCtorParams":      {get: "(MapCtorPrims.sctor_locs w)", typ: "[]*Field"},
+				"srcTagMap":          {get: "(MapCtorPrims.c_tags w)", typ: "map[string]string"},
+				"flags":              {get: "(MapCtorPrims.c_flags w)", typ: "*Flags"},
+				"mappingFuncList":    {get: "(MapCtorPrims.c_funcs w)", typ: "[]shoot.Func"},
+				"writeDestSet":       {get: "MapCtorPrims.WDst", typ: "setref"},
+				"writeSrcSet":        {get: "MapCtorPrims.WSrc", typ: "setref"},
+			},
+		},
+		stores: map[string]map[string]recField{
+			"*Field": {
+				"Name":      cl("get_Name", "", "string"),
+				"typ":       cl("get_typ", "", "types.Type"),
+				"IsGet":     cl("get_IsGet", "", "bool"),
+				"IsSet":     cl("get_IsSet", "", "bool"),
+				"Target":    cl("get_Target", "set_Target", "*Field|nil"),
+				"CanAssign": cl("get_CanAssign", "set_CanAssign", "bool"),
+				"IsConv":    cl("get_IsConv", "set_IsConv", "bool"),
+				"Type":      cl("get_Type", "set_Type", "tyname"),
+				"Func":      cl("get_Func", "set_Func", "string"),
+				"Zero":      cl("get_Zero", "set_Zero", "string"),
+				"warned":    cl("get_warned", "set_warned", "bool"),
+			},
+		},
+		loads:   map[string]string{"*Field": "MapCtorPrims.cload"},
+		maps:    map[string]string{"map[string]string": "MapCtorPrims.tag_lookup"},
+		nilmaps: map[string]string{"map[string]string": "MapCtorPrims.map_is_nil"},
+		makes:   map[string]string{"map[string]string": "MapCtorPrims.map_make"},
+		wsets: map[string]string{
+			"*Generator.data.DestCtorParams": "MapCtorPrims.set_dctor_used",
+			"*Generator.data.SrcCtorParams":  "MapCtorPrims.set_sctor_used",
+		},
+		prims: map[string]prim{
+			"shoot.TypeEquals":    {coq: "TypeEquals", args: []int{0, 1}, results: []string{"bool"}},
+			"types.ConvertibleTo": {coq: "ConvertibleTo", args: []int{0, 1}, results: []string{"bool"}},
+			"isString":            {coq: "isString", args: []int{0}, results: []string{"bool"}},
+			"isFixedWidthInt":     {coq: "isFixedWidthInt", args: []int{0}, results: []string{"bool"}},
+			"zeroValue":           {coq: "zeroValue_o", args: []int{0}, results: []string{"string"}},
+			"strings.EqualFold":   {coq: "Str.equal_fold", args: []int{0, 1}, results: []string{"bool"}},
+			"smartMatch":          {coq: "Transfer.smart_match", args: []int{0, 1}, results: []string{"bool"}},
+			"qualifiedTypeName":   {coq: "MapCtorPrims.qualified_type_name", args: []int{0}, results: []string{"tyname"}},
+			"logx.Warnf":          {coq: "MapCtorPrims.prim_warn", args: nil, results: nil, world: true},
+			"setref.Has":          {recv: true, coq: "MapCtorPrims.set_has", args: []int{0}, results: []string{"bool"}, reads: true},
+			"setref.Adds":         {recv: true, coq: "MapCtorPrims.set_adds", args: []int{0}, results: nil, world: true},
+		},
+		fatals: map[string]bool{"logx.Fatal": true},
 		nilPan: "PNilDeref",
 	}
 }
